@@ -4,6 +4,7 @@ CLAIMED = {
  'C01': ('Bounded symbolic model checking of one inductive step (constructor / operator / slice / copy / transform) from arbitrary valid operands against an independent (signal, noise) pair model; aliasing and mutation decided by buffer-identity monitors on every path.', 'DESIGN.md §5 C01', None),
  'C04': ('Bounded symbolic model checking with bit-vectors: the real PRBS function is executed on a symbolic 64-bit seed / register state; recurrence, resume and seed handling are decided for every seed, maximal period for every state of every order through solver-decided linearity and GF(2) fixed-point queries.', 'DESIGN.md §5 C04', 'symbolic execution of the real PRBS loop over z3 bit-vectors; GF(2) fixed-point queries for the period; counterexamples replayed on the unmodified library'),
  'C05': ('Bounded symbolic model checking: bits, Vout, bias and sample values are solver variables; every sample of the NRZ/RZ waveform, every SAMPLER instant and the validation branches are decided on every path of the real DAC/SAMPLER code; Gaussian clauses decided on a stated parameter grid.', 'DESIGN.md §5 C05', None),
+ 'C12': ('Bounded symbolic model checking: bit strings, slot patterns, waveform samples and every random draw of HDD are solver variables; one-hot placement, round trip, HDD repair rules and SDD argmax are decided on every path of the real ppm.py code.', 'DESIGN.md §5 C12', None),
 }
 NOT_APPLICABLE = {f'C{i:02d}': NB for i in range(1, 21) if f'C{i:02d}' not in CLAIMED}
 NOT_APPLICABLE['C17'] = ('every clause is a statement about sklearn KMeans / scipy resample / gaussian_kde on >= 8192-sample records; '
